@@ -6,6 +6,7 @@ import (
 	"fmt"
 	"math/big"
 	"math/rand/v2"
+	"strings"
 
 	"github.com/onflow/crypto"
 	"github.com/onflow/crypto/hash"
@@ -36,7 +37,8 @@ func init() {
 
 func c17Gen(tier string, r *rand.Rand) []Case {
 	modes := []string{"honest", "different-data", "scaled", "neg-both", "neg-one", "id-key1", "id-key2", "id-proofs", "id-proof1", "plusT1", "plusT2",
-		"malformed1", "short1", "long2", "other-key", "same-key", "neg-key", "swapped-proofs", "bitflip1", "flags1", "xgep2"}
+		"malformed1", "short1", "long2", "other-key", "same-key", "neg-key", "swapped-proofs", "bitflip1", "flags1", "xgep2",
+		"same-key-same-malformed", "same-key-same-plusT", "same-key-same-offcurve", "same-key-same-valid", "same-key-two-objects-same-plusT"}
 	var cs []Case
 	reps := 1
 	if tier == "thorough" {
@@ -48,7 +50,7 @@ func c17Gen(tier string, r *rand.Rand) []Case {
 			k1.Add(k1, big.NewInt(1))
 			k2 := new(big.Int).Mod(new(big.Int).SetBytes(rbytes(r, 40)), new(big.Int).Sub(blsR, big.NewInt(1)))
 			k2.Add(k2, big.NewInt(1))
-			if m == "same-key" {
+			if strings.HasPrefix(m, "same-key") {
 				k2.Set(k1)
 			}
 			if m == "neg-key" {
@@ -113,6 +115,27 @@ func c17Run(c Case) (Result, error) {
 	inf[0] = 0xC0
 	switch in.Mode {
 	case "honest", "same-key", "neg-key":
+	case "same-key-same-malformed":
+		// one key, byte-identical proofs that are not valid encodings
+		p1 = append([]byte{}, p1...)
+		p1[0] &= 0x7F
+		p2 = append([]byte{}, p1...)
+	case "same-key-same-plusT", "same-key-two-objects-same-plusT":
+		p1 = e1Compress(e1Add(P1, e1Torsion(rr)))
+		p2 = append([]byte{}, p1...)
+		if in.Mode == "same-key-two-objects-same-plusT" {
+			pk2, _ = crypto.DecodePublicKey(crypto.BLSBLS12381, pk1.Encode())
+		} else {
+			pk2 = pk1
+		}
+	case "same-key-same-offcurve":
+		p1 = make([]byte, 48)
+		p1[0], p1[47] = 0x80, 0x01
+		p2 = append([]byte{}, p1...)
+		pk2 = pk1
+	case "same-key-same-valid":
+		p2 = append([]byte{}, p1...)
+		pk2 = pk1
 	case "different-data":
 		p2, _ = crypto.SPOCKProve(sk2, d2, hs)
 	case "scaled":
